@@ -209,6 +209,7 @@ static json call(const json& q) {
 	else if (fn == "C_DestroyObject") rv = P->C_DestroyObject(S(q, "s"), S(q, "o"));
 	else if (fn == "C_GetObjectSize") { CK_ULONG n = 0; rv = P->C_GetObjectSize(S(q, "s"), S(q, "o"), q.value("null", false) ? nullptr : &n); r["size"] = (uint64_t)n; }
 	else if (fn == "C_GetAttributeValue") { Tmpl t; t.build(q.value("tmpl", json::array())); rv = P->C_GetAttributeValue(S(q, "s"), S(q, "o"), t.ptr(), t.count()); if (!t.isnull) r["tmpl"] = t.report_outputs(q["tmpl"]); }
+	else if (fn == "X_Sleep") { usleep((useconds_t)q.value("us", (uint64_t)1000)); rv = 0; }   // harness pacing between calls of a script (not a library call)
 	else if (fn == "X_GetTemplateAttr") { // extension: read an array attribute (CKA_WRAP_TEMPLATE, ...) with the three-step protocol (size, types+sizes, values)
 		CK_SESSION_HANDLE s = S(q, "s"); CK_OBJECT_HANDLE o = S(q, "o"); CK_ATTRIBUTE a; a.type = S(q, "t"); a.pValue = nullptr; a.ulValueLen = 0; json l = json::array();
 		rv = P->C_GetAttributeValue(s, o, &a, 1);
